@@ -189,7 +189,9 @@ type ev_parsed = { ev : event; fresh : n; bserial : n option }
 let parse_event (line : string) : ev_parsed =
   match split line with
   | ["NEW"; c; v] -> { ev = NewConnection (n_of_string c, n_of_string v); fresh = N0; bserial = None }
-  | ["SHUT"; c] -> { ev = ConnectionShutdown (n_of_string c); fresh = N0; bserial = None }
+  (* `SHUT c clean`: the client sent Shutdown first (the harness tells the two apart for replays;
+     the broker sees ConnectionShutdown either way) *)
+  | ["SHUT"; c] | ["SHUT"; c; "clean"] -> { ev = ConnectionShutdown (n_of_string c); fresh = N0; bserial = None }
   | ["SHUTC"; c] -> { ev = ShutdownConnection (n_of_string c); fresh = N0; bserial = None }
   | ["DROP"; c] -> { ev = DropTask (n_of_string c); fresh = N0; bserial = None }
   | ["SHUTB"] -> { ev = ShutdownBroker; fresh = N0; bserial = None }
